@@ -15,13 +15,23 @@ def frac(x):
     return [f.numerator, f.denominator]
 
 
+def held(bin_models, hits):
+    """names and counts as held by the bin objects and counter lists themselves (not through the index-lookup getters the
+    report code uses)"""
+    names = [b.get_bin_name(k) for b in bin_models for k in range(b.get_n_bins())]
+    hits = list(hits)
+    if len(names) != len(hits):
+        return [["<%d names, %d counters>" % (len(names), len(hits)), -1]]
+    return [[n, h] for n, h in zip(names, hits)]
+
+
 def item_recs(m):
     out = []
     for cp in m.coverpoint_l:
         out.append({"name": cp.name, "cross": False, "weight": cp.options.weight, "at_least": cp.options.at_least,
-                    "bins": [[cp.get_bin_name(i), cp.get_bin_hits(i)] for i in range(cp.get_n_bins())],
-                    "ignore": [[cp.get_ignore_bin_name(i), cp.get_ignore_bin_hits(i)] for i in range(cp.get_n_ignore_bins())],
-                    "illegal": [[cp.get_illegal_bin_name(i), cp.get_illegal_bin_hits(i)] for i in range(cp.get_n_illegal_bins())]})
+                    "bins": held(cp.bin_model_l, cp.hit_l),
+                    "ignore": held(cp.ignore_bin_model_l, cp.hit_ignore_l),
+                    "illegal": held(cp.illegal_bin_model_l, cp.hit_illegal_l)})
     for cr in m.cross_l:
         out.append({"name": cr.name, "cross": True, "weight": cr.options.weight, "at_least": cr.options.at_least,
                     "bins": [[cr.get_bin_name(i), cr.get_bin_hits(i)] for i in range(cr.get_n_bins())],
